@@ -34,16 +34,26 @@ CLAIM = dict(
          'equations of the centred values in that basis; (C13_coeffs_eq) the fitted constant is the sample mean plus '
          'the constant terms of the d one-dimensional fits; (C13_anova_func_rounded) with the default e the result is '
          'truncate applied to that tensor. '
-         'PARTIAL: (C13_anova_order2_partial, C13_anova_order2_pre_partial) the order-2 tensor is truncate(e,r) applied '
-         'to a TT-tensor of the observed shape whose entry is constant + univariate + pair terms plus the entry changes '
-         'of the intermediate truncate calls (none when d<=5: fewer than 15 pairs); the size of the truncation error '
-         'and the rank cap <= r are the contract of truncate (property C02) and are not derived here, they are '
-         'validated numerically (correspondence order2, search). (C13_cores_1_noise_partial, '
-         'C13_cores_1_noise_telescope_partial) with noise the cores equal the noise-free ones on the pattern and '
-         'noise-free + noise*draw elsewhere, and the tensor entry is f0 + sum f1 + noise * (sum of d explicit mixed '
-         'chains); a numeric bound of that sum is not proved (validated numerically by the search only). '
-         'NOT PROVED, validated numerically only: anova_func with rounding (default e) stays within 1e-7 of the '
-         'unrounded tensor; IEEE rounding of all of the above (tolerances of the correspondence).',
+         'AT THE REALS (carrier R, Reals axioms): (C13_cores_1_noise_bound, the "up to the requested noise" clause) '
+         'for every noise level and every generator whose draws are bounded by gmax, with F a bound of |f0| and every '
+         '|f1|, the order-1 entry differs from f0 + sum_k f1[k][x_k] by at most |noise| d r gmax (r(1+2F+|noise| '
+         'gmax))^(d-1), all d>=2, r>=2; (C13_anova_order2_error) order 2 with fewer than 15 pairs (d<=5), the '
+         'rounding inside add_many being the real model of teneva.truncate and only the LAPACK contracts (qr, rq, '
+         'eigh, argsort) assumed as in C02: the single truncate(e, int(r)) call succeeds, the result has the observed '
+         'mode sizes, a valid rank profile with every TT-rank <= max(1, r), and when no rank reaches r its Frobenius '
+         'distance from the tensor constant + univariate + pair terms is at most e times the norm of that tensor; '
+         '(C13_anova_func_error) anova_func with default e: the rounding succeeds, keeps the mode sizes and the '
+         'result is within e ||A||_F of the unrounded coefficient tensor A (fewer than 10^12 coefficients). '
+         'PARTIAL / ASSUMED: order 2 assumes the skeleton routine of the pair matrices EXACT (U V = A); '
+         'teneva.matrix_skeleton truncates at 1e-10 and that error is not modelled (validated numerically, 1e-8). '
+         '(C13_anova_order2_partial, C13_anova_order2_pre_partial) for d>=6 (15 or more pairs, intermediate rounding '
+         'calls) only the accounting form is proved: the result is truncate(e,r) applied to a tensor whose entry is '
+         'constant + univariate + pair terms plus the entry changes of the intermediate truncate calls. '
+         '(C13_cores_1_noise_partial, C13_cores_1_noise_telescope_partial) are the ring-level identities behind the '
+         'noise bound (cores = noise-free + noise*draw off the pattern; entry = f0 + sum f1 + noise * sum of d mixed '
+         'chains); the bound is deterministic in gmax, nothing probabilistic about normal draws is proved. '
+         'NOT PROVED, validated numerically only: IEEE rounding of all of the above (tolerances of the '
+         'correspondence).',
     note='Trusted: Coq kernel; vm_compute for case evaluation; hand-written models tied to the code on every run by the '
          'correspondence (Qc instance; exact on integers/indices/shapes/errors/noise entries, 1e-12 relative on float '
          'results); oracle contracts (Section hypotheses): matrix_skeleton returns U V = A; truncate keeps '
@@ -55,7 +65,8 @@ CLAIM = dict(
          'compared with the stateless model and the fitted state (f0, f1, f2, domain, cached f1_arr/f2_arr) must be '
          'exactly unchanged after every call. anova_func families: constant data with inexact mean, scales 1e-300 '
          '.. 1e200 (default-e rounding only for 1e-100 .. 1e100: truncate squares the entries).',
-    technique='Coq proof (chain invariants, telescoping, grid sums over an abstract commutative ring / field) + '
+    technique='Coq proof (chain invariants, telescoping, grid sums over an abstract commutative ring / field; l1 chain '
+              'bounds and composition with the C02 truncate theorems at R) + '
               'model/implementation correspondence over Qc + independent Fraction/numpy oracle on the implementation')
 TRUSTED = ['Coq 8.16.1 kernel + vm_compute (case evaluation only)',
            'hand-written models Model/Anova.v, Model/AnovaFunc.v tied to anova.py / anova_func.py / act_many.py '
